@@ -157,7 +157,13 @@ func (c *Ctx) globalAccesses(g *ssa.Global) []gAccess {
 							case "len", "cap":
 								out = append(out, gAccess{in: in, fn: fn, what: b.Name()})
 							case "append":
-								out = append(out, gAccess{in: in, fn: fn, what: "append (read)"})
+								// (after seed C14f) append writes into the backing array of its first argument whenever
+								// that has spare capacity: for a package-level slice it is a write to shared memory
+								if i == 0 {
+									out = append(out, gAccess{in: in, fn: fn, write: true, what: "append to the shared slice (writes its backing array when it has spare capacity)"})
+								} else {
+									out = append(out, gAccess{in: in, fn: fn, what: "append (read)"})
+								}
 							default:
 								out = append(out, gAccess{in: in, fn: fn, escape: true, what: "passed to " + b.Name()})
 							}
